@@ -2,9 +2,11 @@
 use crate::report::Ctx;
 use crate::rng::Rng;
 
+pub mod hist;
 pub mod netval;
 pub mod path;
 pub mod powertrain;
+pub mod train;
 
 pub struct Spec {
     pub id: &'static str,
@@ -28,6 +30,12 @@ const PATH_ASSUME: &[&str] = &[
     "positive restriction speeds only (negative speeds are accepted by validation but undocumented)",
     "restrictions ending past their link's end and zero-length restrictions are flagged sub-domains (low probability)",
     "|grade| <= 2.5 %, link lengths 30 m - 30 km, train length 50 m - 3 km",
+];
+
+const TRAIN_ASSUME: &[&str] = &[
+    "networks/trains from the generator family of DESIGN.md section 3: 2..8 gaps, links 30 m - 6 km, |grade| <= 1.8 %, trains 3-150 cars that fit on the route, consist sized for weight and grade",
+    "rail vehicles: the six shipped rolling-stock files and perturbed copies",
+    "a run counts as accepted when the builder and the first extend_path returned Ok",
 ];
 
 pub fn spec(id: &str) -> Option<Spec> {
@@ -97,6 +105,24 @@ pub fn spec(id: &str) -> Option<Spec> {
             assumptions: &["only rules named in the property statement are expected to reject (Expect::Reject); non-finite but otherwise meaningful values (infinite speed, lockout reference out of range) are only required not to crash and are recorded",
                 "legacy layout is produced by rewriting the current-layout YAML (speed_sets map -> typed list); only networks whose links all use typed speed_sets have a legacy form"],
         },
+        "C03" => Spec { id: "C03", run: train::run_c03, cases_quick: 1600, cases_thorough: 60000,
+            rule: "case = generated network (2..8 gaps, grades up to 1.8 %, 1..4 restrictions per set incl. short fast windows between slow zones) x train makeup (1-3 car types, shipped and perturbed vehicles, 3-150 cars, consist sized for weight and grade, conventional/battery mixes, both policies) x extension schedule (whole path + walk(); link-by-link extension with a look-ahead as SavedSim::update_movement; walk_timed_path with entry times from a free run plus random delays). Every saved step: speed >= 0, speed <= posted limit at the front position (reference profile built from the network), speed <= limit in force, speed target <= limit in force; Ok => stopped inside [end-1000 ft, end]; any panic is a violation. Non-trivial = accepted run crossing >=3 link boundaries that brakes for >=1 restriction; distinct = hash of route/train/run length",
+            assumptions: TRAIN_ASSUME },
+        "C07" => Spec { id: "C07", run: train::run_c07, cases_quick: 3200, cases_thorough: 120000,
+            rule: "case = one set-speed or speed-limited run (all extension schedules) with save interval 1; every saved row k is compared with the definitions evaluated statelessly (binary search, no cached indices) at the position/speed of row k-1: grade and curve resistance from the cumulative path functions at front and rear, rolling/davis-B/bearing/aero from coefficients read from the resistance model AND re-derived from the rail vehicles, weight = g*(cars or override + consist), front elevation, front and rear grade. Non-trivial = run in which front and rear are in different grade pieces for >=1 step; distinct = hash of route/train/run",
+            assumptions: TRAIN_ASSUME },
+        "C11" => Spec { id: "C11", run: train::run_c11, cases_quick: 3200, cases_thorough: 120000,
+            rule: "case = one set-speed or speed-limited run with save interval 1; train.history, loco_con.history and every loco history are compared row by row (step index alignment first): demanded wheel power = consist request = consist delivery = sum over units; cumulative wheel energy and its positive/negative parts across the three levels; final fuel/battery totals across levels and getters; annualised getters = totals x 365.25/simulation_days for days in {None,1,7,365}. Non-trivial = run with both positive and negative wheel power on a mixed consist; distinct = hash of route/train/run",
+            assumptions: TRAIN_ASSUME },
+        "C12" => Spec { id: "C12", run: train::run_c12, cases_quick: 3200, cases_thorough: 120000,
+            rule: "case = one set-speed or speed-limited run with save interval 1 over routes with links from 30 m to 6 km; every saved row: time step, trapezoid position update, rear = front - length (same alignment through the run), total distance increment, front segment + in-segment offset identify the front position on the path. Non-trivial = run with a step crossing >=2 link boundaries or >50 rows; distinct = hash of route/train/run",
+            assumptions: TRAIN_ASSUME },
+        "C14" => Spec { id: "C14", run: train::run_c14, cases_quick: 4800, cases_thorough: 160000,
+            rule: "case = one SetSpeedTrainSim::walk over a generated non-negative speed trace with irregular stamps (0.05-10 s), accelerations that do and do not saturate the consist (15 % of traces carry one negative speed at a random index and must be rejected); every row: time and speed bitwise equal to the trace, inertia power with compound mass, resistance power with mean speed, wheel power = clip(inertia+resistance) with clip values taken from the limits the consist published, energy = power x trace dt. Non-trivial = run with >=1 clipped and >=1 unclipped step; distinct = hash of route/train/trace",
+            assumptions: TRAIN_ASSUME },
+        "C19" => Spec { id: "C19", run: hist::run_c19, cases_quick: 9600, cases_thorough: 300000,
+            rule: "case = one run of one simulation kind (LocomotiveSimulation, ConsistSimulation, SetSpeedTrainSim, SpeedLimitTrainSim whole/timed/link-by-link) with a save interval from {None,1,2,3,7,50,>run} set at construction or through the top-level setter, run lengths 1..900, 30 % of powertrain traces carry an over-limit demand at a chosen step so the run ends with an error; a generic walker collects (len, i column, state.i, save_interval) of every history in the object tree and checks equal lengths, same step per row, equal counters, row count = steps whose index is a multiple of the interval (+ initial state when every step is saved), empty when disabled, interval propagated. Non-trivial = interval not in {None,1} on a consist with >=2 unit kinds; distinct = hash of interval/run length/size",
+            assumptions: TRAIN_ASSUME },
         _ => return None,
     })
 }
